@@ -541,10 +541,14 @@ tl::expected<std::string, errors> canonicalize_opaque_pathname(
   // Set dummyURL's path to the empty string.
   // Let parseResult be the result of running URL parsing given value with
   // dummyURL as url and opaque path state as state override.
+  // The parser must start in the opaque path state whatever the value begins
+  // with: "fake:" + "/a/../b" would be parsed as a path-absolute URL (dot
+  // segments removed, path percent-encode set). A sentinel code point in front
+  // of the value keeps the path opaque; it is removed from the result.
   if (auto url =
-          ada::parse<url_aggregator>("fake:" + std::string(input), nullptr)) {
+          ada::parse<url_aggregator>("fake:-" + std::string(input), nullptr)) {
     // Return the result of URL path serializing dummyURL.
-    return std::string(url->get_pathname());
+    return std::string(url->get_pathname().substr(1));
   }
   // If parseResult is failure, then throw a TypeError.
   return tl::unexpected(errors::type_error);
